@@ -11,13 +11,13 @@ use crate::json::J;
 use crate::model::*;
 use crate::rng::Rng;
 
-pub const RULE: &str = "case = (alphabet, count data from random sequence sets or raw count matrices, scalar or per-symbol pseudocounts incl. 0, background: uniform / dyadic non-uniform (sums exactly to 1 in f32) / with zero entries / from counts / from sequences, logarithm base in {2, 10, e, 3.7}). An f64 reference of the definitions (relative tolerance 1e-5) judges counts, frequency rows (sum to one, (count+pseudo)/total), weights (0 where the background is 0), scores (-inf where the background is 0), agreement of the one-step, two-step and rescale routes, [min_score, max_score] bracketing of wildcard-free windows incl. the extreme words, and rejection of invalid inputs (unequal lengths, frequency rows off by >= 0.05, backgrounds outside [0,1] / NaN / sum off by >= 0.01). Non-trivial = width >= 1 and a non-uniform background or non-zero pseudocount; distinct = distinct (alphabet, counts, pseudocounts, background, base).";
+pub const RULE: &str = "case = (alphabet, count data from random sequence sets or raw count matrices, scalar or per-symbol pseudocounts incl. 0, background: uniform / dyadic non-uniform (sums exactly to 1 in f32) / with zero entries / from counts / from sequences, logarithm base in {2, 10, e, 3.7}). An f64 reference of the definitions (relative tolerance 1e-5) judges counts, frequency rows (sum to one, (count+pseudo)/total), weights (0 where the background is 0), scores (-inf where the background is 0), agreement of the one-step, two-step and rescale routes (and of the TRANSFAC record type of lightmotif-io, whose to_counts / to_freq implement the same definition on a record read from text, rows with differing totals), [min_score, max_score] bracketing of wildcard-free windows incl. the extreme words, and rejection of invalid inputs (unequal lengths, frequency rows off by >= 0.05, backgrounds outside [0,1] / NaN / sum off by >= 0.01). Non-trivial = width >= 1 and a non-uniform background or non-zero pseudocount; distinct = distinct (alphabet, counts, pseudocounts, background, base).";
 
 pub const REQUIRED: &[&str] = &[
     "alphabet.dna", "alphabet.protein", "source.from_sequences", "source.raw_counts", "pseudo.scalar", "pseudo.zero",
     "pseudo.per_symbol", "bg.uniform", "bg.dyadic", "bg.zero_entries", "bg.tiny_positive_entry", "bg.from_counts", "bg.from_sequence",
     "base.2", "base.10", "base.e", "base.3.7", "route.one_step", "route.two_step", "route.rescale", "route.from_impls",
-    "invalid.unequal_lengths", "invalid.unequal_lengths.empty_member", "invalid.unequal_lengths.leading_empty", "invalid.freq_row_sum", "invalid.bg_out_of_range", "invalid.bg_negative_sum_one", "invalid.bg_sum", "invalid.bg_nan",
+    "invalid.unequal_lengths", "invalid.unequal_lengths.empty_member", "invalid.unequal_lengths.leading_empty", "invalid.freq_row_sum", "invalid.freq_not_a_number", "route.transfac_record", "invalid.bg_out_of_range", "invalid.bg_negative_sum_one", "invalid.bg_sum", "invalid.bg_nan",
     "windows.bracketed", "class.neg_inf_score",
 ];
 
@@ -566,6 +566,45 @@ fn run_case<A: Alphabet>(case: u64, rng: &mut Rng, rep: &mut Report, alpha: &str
             Ok(Ok(_)) => fail(rep, "c09.accepts_invalid", format!("FrequencyMatrix::new accepted a row summing to 1{:+}", delta), &notes, J::Null),
             Err(p) => fail(rep, &format!("c09.panic:{}", panic_site(&p)), format!("panic in FrequencyMatrix::new: {}", p), &notes, J::Null),
         }
+        // rows holding a value that is no frequency at all: NaN, +inf and -inf together (their sum is
+        // NaN), an infinity, a negative / above-one cell compensated elsewhere
+        {
+            let mut bad = good.clone();
+            let r = rng.below(w);
+            let a = rng.below(k - 1);
+            let b = (a + 1 + rng.below((k - 2).max(1))) % (k - 1);
+            let what = match rng.below(5) {
+                0 => {
+                    bad[r][a] = f32::NAN;
+                    "a NaN cell"
+                }
+                1 => {
+                    bad[r][a] = f32::INFINITY;
+                    bad[r][b] = f32::NEG_INFINITY;
+                    "+inf and -inf in one row"
+                }
+                2 => {
+                    bad[r][a] = f32::INFINITY;
+                    "an infinite cell"
+                }
+                3 => {
+                    for x in bad[r].iter_mut() {
+                        *x = f32::NAN;
+                    }
+                    "an all-NaN row"
+                }
+                _ => {
+                    bad[r][a] = f32::NEG_INFINITY;
+                    "a -inf cell"
+                }
+            };
+            rep.cover("invalid.freq_not_a_number");
+            match guard(|| FrequencyMatrix::<A>::new(bad)) {
+                Ok(Err(_)) => {}
+                Ok(Ok(_)) => fail(rep, "c09.accepts_invalid", format!("FrequencyMatrix::new accepted a row with {}", what), &notes, J::Null),
+                Err(p) => fail(rep, &format!("c09.panic:{}", panic_site(&p)), format!("panic in FrequencyMatrix::new: {}", p), &notes, J::Null),
+            }
+        }
         match guard(|| FrequencyMatrix::<A>::new(good)) {
             Ok(Ok(_)) => {}
             Ok(Err(_)) => fail(rep, "c09.rejects_valid", "FrequencyMatrix::new rejected rows summing to one".into(), &notes, J::Null),
@@ -653,10 +692,116 @@ fn run_case<A: Alphabet>(case: u64, rng: &mut Rng, rep: &mut Report, alpha: &str
     });
 }
 
+/// The same count -> frequency definition behind the TRANSFAC record type of lightmotif-io
+/// (`Record::to_counts`, `Record::to_freq`): a record read from text, rows with differing totals.
+fn transfac_route(case: u64, rng: &mut Rng, rep: &mut Report) {
+    rep.eval();
+    rep.cover("route.transfac_record");
+    let w = rng.range(1, 20);
+    let equal_totals = rng.chance(0.3);
+    let total = rng.range(4, 400);
+    let counts: Vec<[u32; 4]> = (0..w)
+        .map(|_| {
+            if equal_totals {
+                let a = rng.below(total + 1);
+                let b = rng.below(total - a + 1);
+                let c = rng.below(total - a - b + 1);
+                [a as u32, b as u32, c as u32, (total - a - b - c) as u32]
+            } else {
+                let hi = *rng.pick(&[3usize, 40, 1000]);
+                let mut r = [rng.below(hi) as u32, rng.below(hi) as u32, rng.below(hi) as u32, rng.below(hi) as u32];
+                if r.iter().all(|&x| x == 0) {
+                    r[rng.below(4)] = 1;
+                }
+                r
+            }
+        })
+        .collect();
+    // columns in the file order A C G T; the library stores A C T G N
+    let mut text = String::from("ID  case\nXX\nP0      A      C      G      T\n");
+    for (i, r) in counts.iter().enumerate() {
+        text.push_str(&format!("{:02}      {}      {}      {}      {}      N\n", i + 1, r[0], r[1], r[2], r[3]));
+    }
+    text.push_str("XX\n//\n");
+    let pseudo = *rng.pick(&[0.0f32, 0.1, 0.25, 1.0]);
+    let fail = |rep: &mut Report, kind: &str, msg: String| {
+        rep.violate(kind, case, msg, J::obj().set("route", J::s("transfac record")).set("pseudocount", J::f(pseudo as f64)).set("file", J::s(text.clone())));
+    };
+    let rec = match guard(|| lightmotif_io::transfac::read::<_, Dna>(std::io::Cursor::new(text.as_bytes())).next()) {
+        Ok(Some(Ok(r))) => r,
+        other => {
+            fail(rep, "c09.setup", format!("could not read the generated TRANSFAC record: {:?}", other.map(|x| x.map(|y| y.is_ok()))));
+            return;
+        }
+    };
+    let lib_cols = [0usize, 1, 3, 2]; // file column -> library column (A C G T -> A C T G)
+    let res = guard(|| (rec.to_counts(), rec.to_freq(pseudo)));
+    let (cm, fm) = match res {
+        Ok(x) => x,
+        Err(p) => {
+            fail(rep, &format!("c09.panic:{}", panic_site(&p)), format!("panic in Record::to_counts / to_freq: {}", p));
+            return;
+        }
+    };
+    let cm = match cm {
+        Some(c) => c,
+        None => {
+            fail(rep, "c09.rejects_valid", "Record::to_counts() returned None for integer counts".into());
+            return;
+        }
+    };
+    for i in 0..w {
+        for f in 0..4 {
+            if cm.matrix()[i][lib_cols[f]] != counts[i][f] {
+                fail(rep, "c09.counts", format!("Record::to_counts()[{}][{}] = {}, the file says {}", i, lib_cols[f], cm.matrix()[i][lib_cols[f]], counts[i][f]));
+                return;
+            }
+        }
+    }
+    let all_zero_row = pseudo == 0.0 && counts.iter().any(|r| r.iter().all(|&x| x == 0));
+    let fm = match fm {
+        Some(f) => f,
+        None => {
+            if !all_zero_row {
+                fail(rep, "c09.rejects_valid", format!("Record::to_freq({}) returned None for valid count data (row totals {:?})", pseudo, counts.iter().map(|r| r.iter().sum::<u32>()).take(6).collect::<Vec<_>>()));
+            }
+            return;
+        }
+    };
+    let core = cm.to_freq(pseudo);
+    for i in 0..w {
+        let tot: f64 = counts[i].iter().map(|&x| x as f64 + pseudo as f64).sum();
+        let mut sum = 0.0f64;
+        for j in 0..5 {
+            sum += fm.matrix()[i][j] as f64;
+        }
+        if (sum - 1.0).abs() > 1e-4 {
+            fail(rep, "c09.frequency", format!("Record::to_freq({}): row {} sums to {}", pseudo, i, sum));
+            return;
+        }
+        for f in 0..4 {
+            let expect = (counts[i][f] as f64 + pseudo as f64) / tot;
+            let got = fm.matrix()[i][lib_cols[f]] as f64;
+            let via_core = core.matrix()[i][lib_cols[f]] as f64;
+            if !rel_close(got, expect, 1e-5) || !rel_close(got, via_core, 1e-5) {
+                fail(rep, "c09.frequency", format!("Record::to_freq({})[{}][{}] = {}, (count + pseudocount) / row total = {} (to_counts().to_freq() gives {})", pseudo, i, lib_cols[f], got, expect, via_core));
+                return;
+            }
+        }
+    }
+    if w >= 2 && !equal_totals {
+        let mut d = Digest::new();
+        d.bytes(text.as_bytes()).u(pseudo.to_bits() as u64);
+        rep.nontrivial(d.get());
+    }
+}
+
 pub fn run(cfg: &Config) -> Report {
     let n = cfg.n(20_000, 600_000) as u64;
     run_cases(cfg, n, |case, rng, rep| {
-        if case % 3 == 2 {
+        if case % 16 == 7 {
+            transfac_route(case, rng, rep)
+        } else if case % 3 == 2 {
             run_case::<Protein>(case, rng, rep, "protein")
         } else {
             run_case::<Dna>(case, rng, rep, "dna")
